@@ -132,6 +132,13 @@ func parseContentType(transaction *transaction, headers jws.Headers, _ *jws.Mess
 func parseSignatureParams(transaction *transaction, headers jws.Headers, _ *jws.Message) error {
 	if key, ok := headers.Get(jws.JWKKey); ok {
 		jwkKey := key.(jwk.Key)
+		// Only public keys may be embedded: refuse private (and symmetric) keys, they would be disclosed to the whole network.
+		switch jwkKey.(type) {
+		case jwk.ECDSAPublicKey, jwk.RSAPublicKey, jwk.OKPPublicKey:
+			// OK
+		default:
+			return transactionValidationError("`jwk` header must contain a public key")
+		}
 		transaction.signingKey = jwkKey
 	}
 	// Get the keyID from the header (not to be confused with the keyID from the embedded key)
